@@ -6,7 +6,7 @@ use samlang_checker::{
   type_::{GlobalSignature, Type},
   type_check_module, type_check_sources,
 };
-use samlang_errors::{CompileTimeError, ErrorSet};
+use samlang_errors::{CompileTimeError, ErrorDetail, ErrorSet};
 use samlang_heap::{Heap, ModuleReference};
 use std::{
   collections::{HashMap, HashSet},
@@ -67,7 +67,26 @@ impl ServerState {
   /// - Global context updated
   /// - Dependency graph updated
   /// - recheck_set is the conservative estimate of moduled need to recheck
-  fn recheck(&mut self, mut error_set: ErrorSet, recheck_set: &HashSet<ModuleReference>) {
+  fn recheck(
+    &mut self,
+    mut error_set: ErrorSet,
+    reparsed_set: &HashSet<ModuleReference>,
+    recheck_set: &HashSet<ModuleReference>,
+  ) {
+    // Syntax errors only come from parsing: keep those of modules that are rechecked without
+    // having been re-parsed, since their errors entry is about to be overwritten.
+    for rechecked_module in recheck_set {
+      if !reparsed_set.contains(rechecked_module)
+        && self.parsed_modules.contains_key(rechecked_module)
+      {
+        for e in self.get_errors(rechecked_module) {
+          if let ErrorDetail::InvalidSyntax(reason) = &e.detail {
+            error_set.report_invalid_syntax_error(e.location, reason.clone());
+          }
+        }
+      }
+    }
+
     // Type Checking (parallel)
     let parsed_modules = &self.parsed_modules;
     let global_cx = &self.global_cx;
@@ -140,8 +159,8 @@ impl ServerState {
       self.parsed_modules.insert(mod_ref, parsed);
     }
     self.dep_graph = DependencyGraph::new(&self.parsed_modules);
-    let recheck_set = self.dep_graph.affected_set(initial_update_set);
-    self.recheck(error_set, &recheck_set);
+    let recheck_set = self.dep_graph.affected_set(initial_update_set.clone());
+    self.recheck(error_set, &initial_update_set, &recheck_set);
   }
 
   pub fn rename_module(&mut self, renames: Vec<(ModuleReference, ModuleReference)>) {
@@ -149,8 +168,10 @@ impl ServerState {
     let recheck_set = self
       .dep_graph
       .affected_set(renames.iter().flat_map(|(a, b)| vec![*a, *b].into_iter()).collect());
+    let mut reparsed_set = HashSet::new();
     for (old_mod_ref, new_mod_ref) in renames {
       if let Some(source) = self.string_sources.remove(&old_mod_ref) {
+        reparsed_set.insert(new_mod_ref);
         self.parsed_modules.remove(&old_mod_ref).unwrap();
         let parsed = samlang_parser::parse_source_module_from_text(
           &source,
@@ -166,7 +187,7 @@ impl ServerState {
       self.checked_modules.remove(&old_mod_ref);
     }
     self.dep_graph = DependencyGraph::new(&self.parsed_modules);
-    self.recheck(error_set, &recheck_set);
+    self.recheck(error_set, &reparsed_set, &recheck_set);
   }
 
   pub fn remove(&mut self, module_references: &[ModuleReference]) {
@@ -178,7 +199,7 @@ impl ServerState {
       self.global_cx.remove(mod_ref);
     }
     self.dep_graph = DependencyGraph::new(&self.parsed_modules);
-    self.recheck(ErrorSet::new(), &recheck_set);
+    self.recheck(ErrorSet::new(), &HashSet::new(), &recheck_set);
   }
 }
 
